@@ -75,21 +75,18 @@ pub fn parse_datetime(s: &str) -> Result<(NaiveDateTime, NaiveDateTime), String>
                     let start = date
                         .naive_local()
                         .with_hour(hour_start)
-                        .unwrap()
-                        .with_minute(min_start)
-                        .unwrap()
-                        .with_second(sec_start)
-                        .unwrap();
+                        .and_then(|dt| dt.with_minute(min_start))
+                        .and_then(|dt| dt.with_second(sec_start));
                     let finish = date
                         .naive_local()
                         .with_hour(hour_finish)
-                        .unwrap()
-                        .with_minute(min_finish)
-                        .unwrap()
-                        .with_second(sec_finish)
-                        .unwrap();
+                        .and_then(|dt| dt.with_minute(min_finish))
+                        .and_then(|dt| dt.with_second(sec_finish));
 
-                    Ok((start, finish))
+                    match (start, finish) {
+                        (Some(start), Some(finish)) => Ok((start, finish)),
+                        _ => Err("Error parsing date/time value: ".to_string() + s),
+                    }
                 }
                 _ => Err("Error converting date/time to local: ".to_string() + s),
             }
@@ -120,8 +117,16 @@ pub fn parse_datetime(s: &str) -> Result<(NaiveDateTime, NaiveDateTime), String>
                     _ => Err("Error parsing date/time value: ".to_string() + s),
                 }
             } else if s.len() >= 2 && (s.starts_with("+") || s.starts_with("-")) {
-                let days = s.parse::<i64>().unwrap();
-                let date = Local::now().date_naive() + Duration::days(days);
+                let days = match s.parse::<i32>() {
+                    Ok(days) => days as i64,
+                    _ => return Err("Error parsing date/time value: ".to_string() + s),
+                };
+                let date = match Duration::try_days(days)
+                    .and_then(|offset| Local::now().date_naive().checked_add_signed(offset))
+                {
+                    Some(date) => date,
+                    None => return Err("Error parsing date/time value: ".to_string() + s),
+                };
                 let start = date.and_hms_opt(0, 0, 0).unwrap();
                 let finish = date.and_hms_opt(23, 59, 59).unwrap();
 
